@@ -35,6 +35,18 @@ structure WrapField (f : FieldD) (w : PType) : Prop where
   rep : f.repeated = false
   kind : ∃ c, f.kind = MsgKind.user c
 
+/-- a REPEATED wrapper field (`repeated google.protobuf.Int32Value …`, held as
+    `List[Optional[scalar]]`): never optional, never a oneof member -/
+structure WrapsField (f : FieldD) (w : PType) : Prop where
+  ty : f.ty = PType.message
+  wr : f.wraps = some w
+  wty : isScalarType w = true
+  num : numOk f.num = true
+  rep : f.repeated = true
+  opt : f.optional = false
+  grp : f.group = Option.none
+  kind : ∃ c, f.kind = MsgKind.user c
+
 /-- proto types allowed as map keys: every integer type, bool, string -/
 def isMapKeyType (t : PType) : Bool :=
   t == .int32 || t == .int64 || t == .uint32 || t == .uint64 || t == .sint32 || t == .sint64
